@@ -71,3 +71,43 @@ Check C15Closed.start_game_engine_moves.
 Print Assumptions C15_engine_always_moves.
 Print Assumptions C15_engine_no_moves.
 Print Assumptions C15_engine_never_panics.
+
+(* ---- the whole engine-vs-engine LOOP (Watch.v = make_waterfall_book_then_alpha_beta_move + the
+   loop of computer_vs_computer; WatchProofs.v): from any game in the search invariant, for every
+   sequence of random book choices, the loop never prints an error and never crashes, every move
+   is a legal move of the rules in the position it was made in, the invariant holds at every turn,
+   and it stops only with the exact verdict or at the move limit ---- *)
+From ChessV Require Watch WatchProofs PvpProofs.
+
+Section C15_loop.
+Variable T : ztable.
+Variables rook_t bishop_t : N -> N -> N.
+Hypothesis rook_t_ref : forall x o, x < 64 -> rook_t x o = Rays.rook_ref x o.
+Hypothesis bishop_t_ref : forall x o, x < 64 -> bishop_t x o = Rays.bishop_ref x o.
+
+Theorem C15_watch_run_spec : forall limit g choices steps w,
+  1 <= gdepth g -> (N.to_nat (gdepth g) <= 154)%nat ->
+  ReachWide.SoundW T rook_t bishop_t (N.to_nat (gdepth g)) (gboard g) ->
+  hd 0 (hm_stack (gboard g)) <= 100 ->
+  fullmove (gboard g) + N.of_nat (length choices) + N.of_nat (N.to_nat (gdepth g)) < FULLMOVE_MAX ->
+  Watch.watch_run T rook_t bishop_t limit g choices = (steps, w) ->
+  w <> Watch.WError /\ w <> Watch.WCrash
+  /\ Forall (fun mg => ReachWide.SoundW T rook_t bishop_t (N.to_nat (gdepth g)) (gboard (snd mg))) steps
+  /\ Forall (fun mg => gdepth (snd mg) = gdepth g /\ hd 0 (hm_stack (gboard (snd mg))) <= 100) steps
+  /\ WatchProofs.watch_chain g steps
+  /\ (length steps <= length choices)%nat
+  /\ (forall e, w = Watch.WOver e -> PvpProofs.ending_is (WatchProofs.last_state g steps) (Some e))
+  /\ (w = Watch.WLimit -> 0 < limit /\ limit < fullmove (gboard (WatchProofs.last_state g steps))
+                          /\ PvpProofs.ending_is (WatchProofs.last_state g steps) None)
+  /\ (w = Watch.WRunning -> length steps = length choices /\ PvpProofs.ending_is (WatchProofs.last_state g steps) None
+                      /\ ~ (0 < limit /\ limit < fullmove (gboard (WatchProofs.last_state g steps)))).
+Proof. exact (WatchProofs.watch_run_spec T rook_t bishop_t rook_t_ref bishop_t_ref). Qed.
+End C15_loop.
+
+Check @WatchProofs.engine_move_spec.
+Check @WatchProofs.watch_chain_legal.
+Check WatchProofs.watch_start_hyps.
+Check WatchProofs.watch_start_run.
+Print WatchProofs.watch_chain.
+Print Assumptions C15_watch_run_spec.
+Print Assumptions WatchProofs.engine_move_spec.
